@@ -126,6 +126,9 @@ func (ex *Exec) callFunc(fr *Frame, fn *ssa.Function, free []Val, args []Val, st
 		}
 		return ex.applyContract(fr, c, names, args, fn.Signature, fn.Pkg, st, reach, pos, shortFuncName(fn))
 	}
+	if c != nil && c.Inline && ex.dry == 0 {
+		c.Used = true // verified here, at the site it is inlined into
+	}
 	if len(fn.Blocks) == 0 {
 		panic(unsupported("call to %s: no contract and no body", key))
 	}
